@@ -51,7 +51,7 @@ func TestC09MTU(t *testing.T) {
 		}
 		w, err := stack.Build(spec, 2, 0)
 		if err != nil {
-			t.Fatalf("harness: cannot build %v: %v", spec, err)
+			t.Fatalf("%s", ev.Tag(fmt.Sprintf("harness: cannot build %v: %v", spec, err)))
 		}
 		defer w.Close()
 		a, b := w.Nodes[0], w.Nodes[1]
@@ -272,7 +272,7 @@ func TestC09MuxChannels(t *testing.T) {
 		spec := stack.Spec{Base: "mem", BaseMTU: inner, QueueLen: 1024, Layers: []stack.Layer{{Kind: "rec"}}}
 		w, err := stack.Build(spec, 2, 0)
 		if err != nil {
-			t.Fatalf("harness: %v", err)
+			t.Fatalf("%s", ev.Tag(fmt.Sprintf("harness: %v", err)))
 		}
 		a, b := w.Nodes[0], w.Nodes[1]
 		ca, err := stack.OpenMux(kind, p2p.ComposeAskSwarm[stack.Addr](a.S, a.A), true, ids)
